@@ -57,7 +57,14 @@ type leaf struct {
 	Out    *pred.Outcome
 	Err    error
 	Asked  []string
+	Trace  []string
+	final  string // snapshot taken right after the run (e.g. the receiver's abstract value)
 }
+
+func (l leaf) trace() []string { return l.Trace }
+
+// treeSnapshot, when set by a caller around extractTree, is evaluated after each abstract run.
+var treeSnapshot func() string
 
 func (l leaf) String() string {
 	var ks []string
@@ -115,7 +122,11 @@ func extractTree(prog *ssa.Program, fn *ssa.Function, mkArgs func() []pred.Val, 
 		for k, x := range assign {
 			cp[k] = x
 		}
-		leaves = append(leaves, leaf{Assign: cp, Out: out, Err: err, Asked: ev.Asked})
+		lf := leaf{Assign: cp, Out: out, Err: err, Asked: ev.Asked, Trace: ev.Trace}
+		if treeSnapshot != nil {
+			lf.final = treeSnapshot()
+		}
+		leaves = append(leaves, lf)
 		return nil
 	}
 	if err := rec(map[string]int{}); err != nil {
